@@ -56,7 +56,7 @@ def prop(case):
         except Exception as e:
             raise Violation("step-foreign", "legal step %d %r raised %s: %s\nmodel before step:\n%s" % (
                 step, op, type(e).__name__, str(e)[:400], run.model.text()), "%s/%s" % (kind, type(e).__name__))
-        probs = O.invariants(run.gfa, removed=run.removed)
+        probs = O.invariants(run.gfa, removed=run.removed) + run.stale_instances()
         if probs:
             raise Violation("invariant", "after step %d %r:\n%s\nmodel:\n%s" % (step, op, "\n".join(probs[:8]), run.model.text()),
                             probs[0].split(":")[0])
